@@ -208,6 +208,19 @@ func (p *Proc) Kill() {
 	}
 }
 
+// Signal sends a signal to the child; from then on its end counts as caused by the harness.
+func (p *Proc) Signal(sig syscall.Signal) {
+	p.mu.Lock()
+	p.killed = true
+	p.mu.Unlock()
+	if p.cmd.Process != nil {
+		p.cmd.Process.Signal(sig)
+	}
+}
+
+// Done is closed when the process has ended.
+func (p *Proc) Done() <-chan struct{} { return p.done }
+
 // Exited reports whether the process has ended and whether it was the harness that killed it.
 func (p *Proc) Exited() (exited, byHarness bool) {
 	select {
